@@ -763,6 +763,26 @@ func verifC28Fields(b []byte, from int) []verifC28Field {
 	return out
 }
 
+// every box whose size field the MediaMTX-owned parsers read (plus udta/mtxi, read through the library)
+func verifC28PickSize(r *verifutil.Rand, fields []verifC28Field) (verifC28Field, bool) {
+	var sz []verifC28Field
+	for _, fd := range fields {
+		switch fd.kind {
+		case "size:moov", "size:mvhd", "size:moof", "size:traf", "size:tfhd", "size:tfdt", "size:trun", "size:mdat",
+			"size:udta", "size:mtxi", "size:ftyp", "size:mfhd":
+			sz = append(sz, fd)
+		}
+	}
+	if len(sz) == 0 {
+		return verifC28Field{}, false
+	}
+	// the first boxes of the file matter most (moov right after a valid ftyp)
+	if r.Chance(1, 3) {
+		return sz[r.Intn(min(3, len(sz)))], true
+	}
+	return sz[r.Intn(len(sz))], true
+}
+
 func verifC28Put32(b []byte, off int, v uint32) {
 	if off < 0 || off+4 > len(b) {
 		return
@@ -826,7 +846,11 @@ func verifC28Mutate(r *verifutil.Rand, src []byte, from int) []byte {
 		nm = 2 + r.Intn(2)
 	}
 	for k := 0; k < nm; k++ {
-		switch c := r.Intn(20); {
+		switch c := r.Intn(21); {
+		case c == 20 && len(fields) > 0: // a box size within 64 bytes of 2^32 (uint32 sums with the preceding box wrap)
+			if fd, ok := verifC28PickSize(r, fields); ok && fd.off+4 <= len(b) {
+				verifC28Put32(b, fd.off, 0xffffffff-uint32(r.Intn(64)))
+			}
 		case c < 11 && len(fields) > 0: // a structural field
 			fd := fields[r.Intn(len(fields))]
 			if fd.off < 0 || fd.off+4 > len(b) {
@@ -1038,7 +1062,11 @@ func verifC28Gen(r *verifutil.Rand, i int, thorough bool) []string {
 func verifC28GenE2E(r *verifutil.Rand, src []byte, base verifC28Base, hl int) string {
 	hostile := func() []byte {
 		b := append([]byte(nil), src...)
-		switch r.Intn(5) {
+		switch r.Intn(6) {
+		case 5: // a box size within 64 bytes of 2^32, everything before it valid
+			if fd, ok := verifC28PickSize(r, verifC28Fields(b, 0)); ok {
+				verifC28Put32(b, fd.off, 0xffffffff-uint32(r.Intn(64)))
+			}
 		case 0: // F-C28: mvhd timescale 0
 			i := bytes.Index(b, []byte("mvhd"))
 			verifC28Put32(b, i+16, 0)
@@ -1176,6 +1204,17 @@ func TestVerifC28MkCorpus(t *testing.T) {
 	out = append(out, parse(b), mux(b, a2u.tracks))
 	out = append(out, "# the same through the real HTTP server in a child process")
 	out = append(out, fmt.Sprintf("e2e list 2 %s %s %s %s", verifC28InitOracle(a1c.data), verifutil.Hex(a1c.data), verifC28InitOracle(ts0), verifutil.Hex(ts0)))
+	out = append(out, "# round 3: box sizes within 64 bytes of 2^32 (uint32 sum with the preceding box wraps), through the real server")
+	for _, tg := range []string{"moov", "mvhd", "moof", "traf", "tfhd", "trun", "mdat", "mtxi"} {
+		c := cp(a2u.data)
+		verifC28Put32(c, bytes.Index(c, []byte(tg))-4, 0xfffffff0)
+		out = append(out, fmt.Sprintf("e2e listse 1 %s %s", verifC28InitOracle(c), verifutil.Hex(c)))
+		if tg == "moov" || tg == "moof" || tg == "trun" {
+			ev2, _ := verifC28Events(c, verifC28ParseTracks(a2u.tracks))
+			out = append(out, fmt.Sprintf("e2e get %s %s %s", verifC28InitOracle(c), ev2, verifutil.Hex(c)))
+			out = append(out, parse(c))
+		}
+	}
 	zero := make([]byte, 300)
 	for _, v := range []string{"lists", "liste", "listse"} {
 		out = append(out, fmt.Sprintf("e2e %s 1 %s %s", v, verifC28InitOracle(zero), verifutil.Hex(zero)))
